@@ -127,6 +127,9 @@ func ModelTable(a *sx.Node) *sx.Node {
 	}
 	out := sx.H("ok")
 	for _, m := range a.Args() {
+		if m.Head() != "method" {
+			continue
+		}
 		n := 0
 		for _, r := range m.L[4].Args() {
 			if r.S != "interface" || true {
@@ -136,4 +139,68 @@ func ModelTable(a *sx.Node) *sx.Node {
 		out.Add(sx.H("method", m.L[1], sx.I(n), m.L[3]))
 	}
 	return out
+}
+
+// ModelNeeds extracts (needs fmt, wrap packages) from a model answer.
+func ModelNeeds(a *sx.Node) (fmtNeeded bool, wrap []string) {
+	for _, m := range a.Args() {
+		if m.Head() == "needs" && len(m.L) == 3 {
+			fmtNeeded = m.L[1].S == "true"
+			for _, w := range m.L[2].Args() {
+				wrap = append(wrap, w.S)
+			}
+		}
+	}
+	return
+}
+
+// EmittedShape describes the imports and top-level declarations of emitted files.
+type EmittedShape struct {
+	Imports []string
+	Decls   []string // kind:name, e.g. "type:ConverterImpl", "func:init", "method:Convert", "var:x"
+}
+
+func ShapeOf(files map[string][]byte) (*EmittedShape, error) {
+	sh := &EmittedShape{}
+	seen := map[string]bool{}
+	for path, content := range files {
+		f, err := parser.ParseFile(token.NewFileSet(), path, content, parser.SkipObjectResolution)
+		if err != nil {
+			return nil, err
+		}
+		for _, im := range f.Imports {
+			p := strings.Trim(im.Path.Value, "\"")
+			if !seen[p] {
+				seen[p] = true
+				sh.Imports = append(sh.Imports, p)
+			}
+		}
+		for _, d := range f.Decls {
+			switch x := d.(type) {
+			case *ast.FuncDecl:
+				if x.Recv != nil {
+					sh.Decls = append(sh.Decls, "method:"+x.Name.Name)
+				} else {
+					sh.Decls = append(sh.Decls, "func:"+x.Name.Name)
+				}
+			case *ast.GenDecl:
+				switch x.Tok {
+				case token.IMPORT:
+				case token.TYPE:
+					for _, sp := range x.Specs {
+						ts := sp.(*ast.TypeSpec)
+						kind := "type-other:"
+						if st, ok := ts.Type.(*ast.StructType); ok && len(st.Fields.List) == 0 {
+							kind = "type-emptystruct:"
+						}
+						sh.Decls = append(sh.Decls, kind+ts.Name.Name)
+					}
+				default:
+					sh.Decls = append(sh.Decls, strings.ToLower(x.Tok.String())+":")
+				}
+			}
+		}
+	}
+	sort.Strings(sh.Imports)
+	return sh, nil
 }
